@@ -401,7 +401,7 @@ package argmapper
 //@   assigns  Func, argBuilder, NamedM, NamedSubM, TypedM, TypedSubM, []*Func, []ConverterGenFunc, ValueSet, Value, valueInternal, []*Value, map[string]*Value, map[reflect.Type]*Value, map[string]string, []string, []interface{}, reflect.StructField, []reflect.StructField, vpos, rvstore, rvfresh
 //@   modifies nothing
 //@   loop 1 invariant wfB(builder) && fresh(builder) && fresh(builder.named) && fresh(builder.namedSub) && fresh(builder.typed) && fresh(builder.typedSub) && !builder.redefining
-//@   loop 1 invariant !old(allocated(builder.convs)) && !old(allocated(builder.convGens))
+//@   loop 1 invariant !existed(builder.convs) && !existed(builder.convGens)
 //@   loop 1 invariant forall(k, string, imp(has(builder.namedSub, k), fresh(builder.namedSub[k]))) && forall(t, reflect.Type, imp(has(builder.typedSub, t), fresh(builder.typedSub[t])))
 //@   loop 1 invariant forall(i, int, imp(0 <= i && i < idx1, opts[i] != nil))
 //@   loop 1 invariant forall(i, int, k, string, imp(0 <= i && i < idx1 && setsNamed(opts[i], k) && forall(j, int, imp(i < j && j < idx1, !setsNamed(opts[j], k))), has(builder.named, k) && builder.named[k] == namedVal(opts[i])))
